@@ -113,6 +113,22 @@ def build_asan():
     return p
 
 
+def build_tsan():
+    """B5: hooked ThreadSanitizer build of s4 (nightly, std rebuilt with the sanitizer)."""
+    if "tsan" in _built:
+        return _built["tsan"]
+    tgt = os.path.join(BUILD, "b5")
+    with _Lock("b5"):
+        _cargo(["cargo", "+nightly", "build", "-Zbuild-std=std,panic_abort", "--release", "--offline", "--bin", "s4",
+                "--target", "x86_64-unknown-linux-gnu"],
+               {"RUSTFLAGS": "-Zsanitizer=thread --cfg s4_verif", "CARGO_TARGET_DIR": tgt}, REPO, "b5.log")
+    p = os.path.join(tgt, "x86_64-unknown-linux-gnu", "release", "s4")
+    if not os.path.exists(p):
+        raise HarnessError("no binary at " + p)
+    _built["tsan"] = p
+    return p
+
+
 def build_harness():
     """B3: the in-process harness `s4verif` (links /repo's s4lib with hooks)."""
     if "harness" in _built:
